@@ -72,6 +72,12 @@ def decoder_domain(rng, tier, pid, scale=1.0, sweep=True):
         dom.append(("soup", G.random_opcode_soup(r, 1 + r.below(40))))
     dom += [("bomb", d) for d in G.length_bombs()]
     dom += [("escape", d) for d in escape_programs()]
+    # keys that cannot be hashed (list / dict / bytearray behind Tuple, Call, Ref wrappers, wide tuples) in
+    # every dict-building opcode: the error paths of both dict modes
+    import props_dict
+    for name, key in props_dict.unhashable_key_programs():
+        dom += [("unhashable", b"(" + key + b"Nd."), ("unhashable", b"}" + key + b"Ns."), ("unhashable", b"}(" + key + b"Nu."),
+                ("unhashable", b"}q\x00(K\x01N" + key + b"h\x00u.")]
     if sweep:
         dom += [("sweep", d) for d in G.stack_sweep()]
     dom = [(t, d) for (t, d) in dom if model_ok_input(d)]
@@ -230,6 +236,11 @@ def cut_positions(n, all_limit=300):
     for b in range(4096, n + 1, 4096):          # around every multiple of bufio's buffer size
         s |= set(range(b - 12, b + 20))
     s |= set(range(4096, min(n, 4400), 7))
+    for b in (65536, 65536 + 4096, 2 * 65536):  # around the 64 KiB preallocation limit
+        s |= set(range(b - 3, b + 12))
+    if n > 20000:                               # huge payloads: a few cuts at the places that matter
+        s = {0, 1, 2, 4, 5, 6, 9, 10, 13, 14, 100, 4095, 4096, 4097, 8192, 8193, n // 3, n // 2, 65535, 65536, 65537, 65540, 65541, 65545,
+             65546, 66004, 66005, 66006, 66010, 69632, 69633, 70000, 2 * 65536, 2 * 65536 + 1, n - 4097, n - 4096, n - 3, n - 2, n - 1}
     return sorted(k for k in s if 0 <= k < n)
 
 def valid_pickles(rng, tier, extra=()):
@@ -249,6 +260,12 @@ def valid_pickles(rng, tier, extra=()):
              b"S'" + b"\\'" * 2500 + b"'\n.", b'S"' + b'\\"\\x41\\n' * 700 + b'"\n.',
              b"S'" + b"\\\\" * 2100 + b"'\n.", b"V" + b"\\\\u0041" * 700 + b"\n.",
              b"(V" + b"\\u00e9" * 700 + b"\nS'" + b"\\x00" * 1100 + b"'\nt."]
+    # payloads larger than any internal chunk / preallocation limit (64 KiB), in every counted form
+    huge = bytes(range(32, 127)) * 800            # 76000 bytes
+    cand += [b"T" + struct.pack("<I", len(huge)) + huge + b".", b"B" + struct.pack("<I", len(huge)) + huge + b".",
+             b"X" + struct.pack("<I", len(huge)) + huge + b".",
+             b"\x80\x05\x96" + struct.pack("<Q", len(huge)) + huge + b".",
+             b"\x80\x04]\x94(B" + struct.pack("<I", 66000) + huge[:66000] + b"X" + struct.pack("<I", 70000) + huge[:70000] + b"e."]
     cand += [d for d in corpus_files() if model_ok_input(d)][: (300 if q else 3000)]
     return cand, hist
 
@@ -326,6 +343,12 @@ def mark_placement_programs():
                     out.append(b"".join(items) + op + b".")
                     out.append(b"]" + b"".join(items) + op + b"a.")
                     out.append(b"}K\x01" + b"".join(items) + op + b"s.")
+    # a mark duplicated by DUP (and popped / re-pushed) below the mark-delimited opcodes: the topmost
+    # mark delimits, the copy must never be taken for an item
+    for op in (b"t", b"l", b"d", b"e", b"u", b"\x85", b"\x86", b"Q", b"a", b"s", b"R"):
+        for pre in (b"(2", b"(22", b"K\x01(2", b"](2", b"}(2", b"((02", b"(2K\x01", b"(K\x012", b"(2K\x01K\x02"):
+            for post in (b".", b"\x85.", b"Q.", b"t.", b"0."):
+                out.append(pre + op + post)
     return out
 
 @check("C16")
@@ -402,7 +425,10 @@ def c11(res, rng, tier):
             b"\x96\x0c\x00\x00\x00\x00\x00\x00\x00hello, world.", b"U\x08XXXXXXXX.", b"C\x05abcde.", b"T\x03\x00\x00\x00xyz.",
             b"\x8c\x04wxyz.", b"B\x02\x00\x00\x00pq.", b"\x96\x02\x00\x00\x00\x00\x00\x00\x00zz.", b"X\x03\x00\x00\x00abc.",
             b"]q\x00K\x01a.", b"}q\x01K\x01K\x02s.", b"]\x94(K\x01K\x02e."]
-    pool = gen + hand * 8
+    # text lines longer than bufio's 4096-byte buffer (readLine's slow path keeps per-Decoder state)
+    longs = [b"S'" + b"a" * 5000 + b"'\n.", b"V" + b"b" * 6000 + b"\n.", b"I" + b"1" * 4200 + b"\n.", b"L" + b"7" * 4300 + b"L\n.",
+             b"c" + b"m" * 4100 + b"\n" + b"n" * 4200 + b"\n.", b"P" + b"p" * 5000 + b"\n.", b"\x80\x02V" + b"\\u00e9" * 900 + b"\n."]
+    pool = gen + hand * 8 + longs[:3]
     r = rng.fork("streams")
     streams = []
     for _ in range(1500 if q else 20000):
@@ -412,6 +438,9 @@ def c11(res, rng, tier):
     for a in hand:
         for b in hand:
             streams.append([a, b])
+    for a in longs:
+        for b in longs:
+            streams.append([a, b]); streams.append([a, hand[0], b])
     lines, meta = [], []
     singles = {}
     for s in streams:
